@@ -8,6 +8,9 @@ from ..cfg import CFG
 from ..kinds import reach
 from ..model import AnalysisError, unparse
 from ..report import RuleResult
+from ..roles import bound_from, canon, returned_names, writer_roles
+
+_plain = unparse
 
 KINDS = {
     "data": {"ConcatenatedData": True, "Data": True, "ConcatenatedObject": False, "ConcatenatedPropertyGroup": False,
@@ -24,6 +27,10 @@ def events(fn, var, facts, removing=False):
     g = CFG(fn.node)
     nodes = reach(g, [g.entry], var, facts)
     out = set()
+    # local aliases by role: the id list read from self, the parent read from the entity
+    roles = {nm: "object_ids" for nm in bound_from(fn.node, lambda e: _plain(e) in ("self.concatenated_object_ids", "self._concatenated_object_ids"))}
+    roles.update({nm: "parent" for nm in bound_from(fn.node, lambda e: isinstance(e, ast.Attribute) and e.attr == "parent")})
+    unparse = lambda n: canon(n, roles)  # noqa: E731
     for n in nodes:
         if n.ast is None or isinstance(n.ast, list):
             continue
@@ -194,7 +201,11 @@ def rule_rec(ctx) -> RuleResult:
     fa = [c for c in ast.walk(ua.node) if isinstance(c, ast.Call) and unparse(c.func).endswith("fromarrays")]
     for c in fa:
         if c.args and isinstance(c.args[0], ast.Tuple):
-            vals = [unparse(e) for e in c.args[0].elts]
+            # roles: start <- fetch_start_index(...); object id <- one of its bindings is the parent's uid; data id <- one is the null uuid
+            rr = {nm: "start" for nm in bound_from(ua.node, lambda e: isinstance(e, ast.Call) and unparse(e.func).endswith("fetch_start_index"))}
+            rr.update({nm: "obj_id" for nm in bound_from(ua.node, lambda e: ".parent.uid" in unparse(e))})
+            rr.update({nm: "data_id" for nm in bound_from(ua.node, lambda e: "UUID(int=0)" in unparse(e))})
+            vals = [canon(e, rr) for e in c.args[0].elts]
             ok = len(vals) == len(dt) and vals[0] == "start" and vals[1].startswith("len(") and vals[2] == "obj_id" and vals[3] == "data_id"
             res.inst(f"record values {vals} follow the dtype order", nontrivial=True, ok=ok)
             if not ok:
@@ -426,7 +437,8 @@ def rule_fresh(ctx) -> RuleResult:
             if not (isinstance(st, ast.Assign) and isinstance(st.targets[0], ast.Subscript) and isinstance(st.targets[0].value, ast.Name)):
                 continue
             var = st.targets[0].value.id
-            if var.endswith("handle") or var in ("visible",):
+            wroles = writer_roles(fn.node)
+            if wroles.get(var, var).endswith("handle") or wroles.get(var, var) == "h5file":
                 continue
             # the closest preceding assignment to `var` (source order) must be fresh
             defs = [a for a in body if isinstance(a, ast.Assign) and any(isinstance(t, ast.Name) and t.id == var for t in a.targets) and a.lineno < st.lineno]
@@ -440,12 +452,18 @@ def rule_fresh(ctx) -> RuleResult:
                          "reading the shared array see 1.17549435e-38 instead of NaN in the same session")
     # (b) Concatenator.copy
     cp = p.func("Concatenator.copy")
+    # role: the copy = the local bound from super().copy(...) (and returned)
+    cp_roles = {nm: "new_entity" for nm in bound_from(cp.node, lambda e: isinstance(e, ast.Call) and unparse(e.func) in ("super().copy", "super(Concatenator, self).copy"))}
+    if not cp_roles:
+        cp_roles = {nm: "new_entity" for nm in returned_names(cp.node)}
+    _plain_unparse = unparse
+    unparse_cp = lambda n: canon(n, cp_roles)  # noqa: E731
     sinks = []
     for a in ast.walk(cp.node):
         if isinstance(a, ast.Assign):
             tg = a.targets[0].elts if isinstance(a.targets[0], ast.Tuple) else [a.targets[0]]
             for t in tg:
-                if isinstance(t, ast.Subscript) and unparse(t.value) in ("new_entity.data", "new_entity.index"):
+                if isinstance(t, ast.Subscript) and unparse_cp(t.value) in ("new_entity.data", "new_entity.index"):
                     sinks.append((t, a))
     if not sinks:
         raise AnalysisError("Concatenator.copy: stores into new_entity.data / .index not found")
@@ -463,14 +481,14 @@ def rule_fresh(ctx) -> RuleResult:
                      "the copy's concatenated tables are the source's own arrays: removing or updating an entry in the copy shifts the start "
                      "indices of the source in place")
     for a in ast.walk(cp.node):
-        if isinstance(a, ast.Assign) and isinstance(a.targets[0], ast.Attribute) and unparse(a.targets[0].value) == "new_entity" and isinstance(a.value, ast.Attribute) \
+        if isinstance(a, ast.Assign) and isinstance(a.targets[0], ast.Attribute) and unparse_cp(a.targets[0].value) == "new_entity" and isinstance(a.value, ast.Attribute) \
                 and unparse(a.value.value) == "self":
             ok = False
             res.inst(f"Concatenator.copy:{a.lineno} {unparse(a)[:70]} (source's own container handed to the copy)", nontrivial=True, ok=ok)
             res.find("Concatenator", "copy", f"{unparse(a.targets[0])} shares the source's {a.value.attr} container", f"{cp.module.relpath}:{a.lineno}",
                      f"the copy's {a.targets[0].attr} is the source's own dict / list: adding or removing entities in the copy edits the source's "
                      "records in place (and its file at the next close)")
-        elif isinstance(a, ast.Assign) and isinstance(a.targets[0], ast.Attribute) and unparse(a.targets[0].value) == "new_entity" and "self." in unparse(a.value):
+        elif isinstance(a, ast.Assign) and isinstance(a.targets[0], ast.Attribute) and unparse_cp(a.targets[0].value) == "new_entity" and "self." in unparse(a.value):
             res.inst(f"Concatenator.copy:{a.lineno} {unparse(a)[:70]} (copied)", nontrivial=True, ok=is_fresh(a.value) or unparse(a.value).startswith(("deepcopy(", "list(", "dict(")))
     # (c) no cast of the stored values
     ua = p.func("Concatenator.update_array_attribute")
